@@ -32,7 +32,7 @@ RULE = ('(i) pty transport: plans [W,X] [W,W,X] [W,C,X] [W,W,C,X] [C,X] [X] (W =
         'and awaited (ack + data readable on the master / zombie in /proc) just before that call executes; readers '
         '{read_nonblocking(size, 50 ms) retried on TIMEOUT, expect(EOF)} x sizes {1, 7, 2000, 65536} x select/poll. (ii) bulk: '
         '0 B..512 KB written in random splits followed by immediate exit/close on pty, fd, socket and popen transports, '
-        'maxread in {1, 64, 2000, 1 MB}. (iii) fd and socket transports in-process with peer actions placed at the '
+        'maxread in {1, 64, 2000, 10000, 65536, 1 MB} (incl. fixed 300 KB runs with maxread between one kernel read and the whole stream). (iii) fd and socket transports in-process with peer actions placed at the '
         'reader\'s select/read/recv sites. (iv) PopenSpawn under schedule perturbation (switch interval 10 us, seeded '
         'yields in the reader thread). Oracle: concatenated results == blocks the peer was acknowledged to have written '
         '(prefix before EOF, equal at EOF), every result <= size, socket timeout unchanged after every call. non-trivial '
@@ -593,10 +593,16 @@ def plan(tier, seed):
                 for size in ((7,) if tier == 'quick' else (1, 7, 2000)):
                     cases.append({'kind': 'inproc', 'tr': tr, 'plan': pl, 'placement': list(p), 'size': size,
                                   'poll': bool(sum(p) % 2)})
+    # deterministic bulk cases: sizes between one kernel read (~4 KB on a pty) and the whole stream, so that one
+    # read_nonblocking has to assemble its result from several pieces
+    for tr in ('pty', 'popen', 'fd', 'socket'):
+        for maxread in ((10000, 65536) if tier == 'quick' else (5000, 10000, 20000, 65536, 200000)):
+            cases.append({'kind': 'bulk', 'tr': tr, 'total': 300000, 'maxread': maxread, 'rs': maxread + len(tr),
+                          'reader': 'loop'})
     nb = 10 if tier == 'quick' else 200
     for i in range(nb):
         tr = ['pty', 'fd', 'socket', 'popen'][i % 4]
-        maxread = rng.choice([1, 64, 2000, 1 << 20])
+        maxread = rng.choice([1, 64, 2000, 10000, 65536, 1 << 20])
         total = rng.choice([0, 1, 100, 5000, 70000, 300000, 524288])
         if maxread == 1:
             total = min(total, 5000)
